@@ -25,6 +25,7 @@ import math
 import z3
 
 _counter = itertools.count()
+PENDING = []      # definitional axioms created by spec helpers; drained into the path condition by the driver
 
 
 def fresh(prefix):
@@ -590,6 +591,19 @@ def select(arr, i):
     return z3.Select(arr, i)
 
 
+def seq_sel(seq, which, i):
+    """seq.arr[i] (which='arr') or seq.none[i] (which='none') with beta reduction through the sequence's definition"""
+    if which == "arr":
+        d = getattr(seq, "defn", None)
+        if d is not None and getattr(seq, "_defn_arr", None) is not None and seq.arr.eq(seq._defn_arr):
+            return z3.substitute(d[1], (d[0], i))
+        return select(seq.arr, i)
+    d = getattr(seq, "defn_none", None)
+    if d is not None and getattr(seq, "_defn_none_arr", None) is not None and seq.none.eq(seq._defn_none_arr):
+        return z3.substitute(d[1], (d[0], i))
+    return select(seq.none, i)
+
+
 class SSeq(Sym):
     """list / 1-D ndarray with symbolic length.  Mutable object with identity."""
 
@@ -692,8 +706,13 @@ def range_axioms(r, closed_form=False):
     i, j = z3.Int(fresh("ri")), z3.Int(fresh("rj"))
     ax = [n >= 0, s >= 1,
           z3.Implies(n > 0, z3.Select(a, 0) == tz(r.start)),
-          z3.ForAll([i], z3.Implies(z3.And(0 <= i, i < n - 1), z3.Select(a, i + 1) == z3.Select(a, i) + s)),
-          z3.ForAll([i, j], z3.Implies(z3.And(0 <= i, i < j, j < n), z3.Select(a, i) < z3.Select(a, j)))]
+          # constant adjacent difference, stated over two existing index terms (a one-variable form with a[i+1] in the
+          # body feeds its own trigger: matching loop)
+          z3.ForAll([i, j], z3.Implies(z3.And(0 <= i, j == i + 1, j < n), z3.Select(a, j) == z3.Select(a, i) + s),
+                    patterns=[z3.MultiPattern(z3.Select(a, i), z3.Select(a, j))]),
+          z3.ForAll([i, j], z3.Implies(z3.And(0 <= i, i < j, j < n), z3.And(z3.Select(a, i) < z3.Select(a, j),
+                                                                            z3.Select(a, j) >= z3.Select(a, i) + s)),
+                    patterns=[z3.MultiPattern(z3.Select(a, i), z3.Select(a, j))])]
     if closed_form:
         # (i*s) div s == i and (i*s) mod s == 0 for s >= 1, stated on the elements
         D, M = (FDIV, FMOD) if (ABSTRACT_NL[0] and not z3.is_int_value(s)) else ((lambda p, q: p / q), (lambda p, q: p % q))
